@@ -228,6 +228,39 @@ pub fn clap_texts(fctx: &fuzz::Ctx, seed: u64, rep: &mut Report) {
     }
 }
 
+/// Extra request settings of every value (C18: "whatever the values"): host names around the protocol's string limits in
+/// bytes and characters, protocol versions at the ends of their range, every gather toggle and app-id flag, through the
+/// definition-driven entry point of one game per family. Accepted means usable: a response or an error, never a panic.
+pub fn extras_use(fctx: &fuzz::Ctx, seed: u64, rep: &mut Report) {
+    let mut rng = StdRng::seed_from_u64(seed ^ 0xe87a);
+    let hosts: Vec<String> = vec![
+        String::new(), "a".into(), "a".repeat(255), "a".repeat(256), "a".repeat(300),
+        "\u{e9}".repeat(127) + "a", "\u{e9}".repeat(128), "\u{4e2d}".repeat(85) + "a", "\u{4e2d}".repeat(100),
+        "\u{1f600}".repeat(64), "a\0b".into(), "x".repeat(40_000),
+    ];
+    let versions = [i32::MIN, -1, 0, 47, 765, i32::MAX];
+    for id in ["minecraftjava", "minecraft", "minecraftbedrock", "csgo", "killingfloor", "crysiswars", "q3a"] {
+        let name = format!("generic:{id}");
+        for (hi, h) in hosts.iter().enumerate() {
+            let v = versions[(hi + id.len()) % versions.len()];
+            let toggles = ["Skip", "Try", "Enforce"];
+            let base = fuzz::base_for(&mut rng, fctx, &name);
+            let script = base.script();
+            let cfg = json!({"port": 27015, "retries": 0, "extra": {"hostname": h, "protocol_version": v,
+                             "gather_players": toggles[hi % 3], "gather_rules": toggles[(hi / 3) % 3], "check_app_id": hi % 2 == 0}});
+            let rec = crate::entries::call_entry(&name, &cfg, &script);
+            rep.evaluations += 1;
+            rep.distinct.insert(hash_of(&(id, hi)));
+            let case = json!({"kind":"settings-extras","game":id,"hostname_chars":h.chars().count(),"hostname_bytes":h.len(),"protocol_version":v});
+            match &rec.outcome {
+                Outcome::Panic { msg } => rep.violation("C18", &format!("accepted extra request settings panic in use: {}", crate::valve::first_line(msg)), case),
+                Outcome::Hang => rep.violation("C18", "accepted extra request settings: query does not return", case),
+                _ => {}
+            }
+        }
+    }
+}
+
 enum Base2 {
     Keep(fuzz::Base),
 }
